@@ -1,6 +1,5 @@
 // ASSUMED CONTRACTS for the client request/reply streams: tokio oneshot channels, tokio::time::timeout, the shared
 // (Arc<Mutex<..>>) halves and pending-request table, AtomicU32.
-pub mod anyhow { #[verifier::external_body] pub struct Error { _p: u8 } }
 #[verifier::external_body] pub struct WriteError { _p: u8 }
 
 pub mod oneshot {
